@@ -742,3 +742,54 @@ class TupleK(Kind):
 
     def __repr__(self):
         return "tuple-of-%d" % len(self.kinds)
+PathSort = z3.DeclareSort("Path")
+
+
+class PathV:
+    """A pathlib pure path: opaque term; .parent/.stem/.name/.parts are uninterpreted functions (libmodel.path_attr)."""
+
+    def __init__(self, term):
+        self.term = term
+
+    def __repr__(self):
+        return "<Path %s>" % self.term
+
+
+class _PathK(Kind):
+    def sort(self):
+        return PathSort
+
+    def wrap(self, ctx, term):
+        return PathV(term)
+
+    def unwrap(self, v):
+        if isinstance(v, PathV):
+            return v.term
+        raise EngineLimit("expected a path, got %r" % (v,))
+
+    def __repr__(self):
+        return "PathK"
+
+
+PathK = _PathK()
+
+
+class _StrSet(Kind):
+    """A Python set of strings."""
+
+    def sort(self):
+        return StrSetSort
+
+    def wrap(self, ctx, term):
+        return SymSet(term, z3.StringSort())
+
+    def unwrap(self, v):
+        if isinstance(v, SymSet):
+            return v.term
+        raise EngineLimit("expected a set of strings, got %r" % (v,))
+
+    def __repr__(self):
+        return "StrSet"
+
+
+StrSet = _StrSet()
